@@ -287,10 +287,20 @@ func (b *builder) build(c Config) (logs.Loggers, []*leaf, error) {
 		}
 		var l logs.IMultipleLoggers
 		var err error
+		// the members are handed over in a slice of the caller with room to spare, which the caller goes on using
+		// afterwards: the composite keeps the members it was given, not the caller's slice
+		passed := make([]logs.Loggers, len(members), len(members)+4)
+		copy(passed, members)
 		if c.Kind == "multiple" {
-			l, err = logs.NewMultipleLoggers("src", members...)
+			l, err = logs.NewMultipleLoggers("src", passed...)
 		} else {
-			l, err = logs.NewCombinedLoggers(members...)
+			l, err = logs.NewCombinedLoggers(passed...)
+		}
+		if noop, nerr := logs.NewNoopLogger("reused"); nerr == nil {
+			for i := range passed {
+				passed[i] = noop
+			}
+			_ = append(passed, noop, noop)
 		}
 		return l, leaves, err
 	}
